@@ -18,6 +18,8 @@ import Martian.VdrFs
 import Proofs.VdrFs
 import Martian.VdrBuild
 import Proofs.VdrBuild
+import Martian.VdrVal
+import Proofs.VdrVal
 
 namespace Props.C04
 open Martian.Vdr
@@ -248,6 +250,33 @@ theorem top_level_and_retained_never_removed_built (tr : PTree) (w : wfOps [] []
   intro c disk evs ok hv
   exact top_level_and_retained_never_removed c (t.st disk) evs ok ⟨rfl, rfl⟩ hv a (hh disk)
 
+/-- **holders_sound.**  No reference through which a value reaches a consuming
+stage is overlooked: for every reference `p.a` in a value position of a
+resolved input of stage `n` (a binding the typed walk accepts: `wellTyped`,
+decided by the driver for every binding of every pipestance built), either
+`n` is registered as a holder of `a` in the table of `p`, or the walk binds
+the reference at a type that cannot name files — and a value of such a type
+names no file (`notfile_value_names_nothing`). -/
+theorem holders_sound (tr : PTree) (w : wfOps [] [] (opsOf tr) = true) (n : Node) (ins : List Binding)
+    (hs : HasStage tr n ins) (b : Binding) (hb : b ∈ ins) (hw : wellTyped b.1 b.2 = true) (p : Node) (a : Arg)
+    (hr : (p, a) ∈ b.1.valueRefs) :
+    (∃ t, (p, t) ∈ build (opsOf tr) ∧ ∀ disk, Holds (t.st disk) a (some n)) ∨
+    (p, a, false) ∈ typedRefs b.1 b.2 := by
+  obtain ⟨f, hf⟩ := (walk_covers b.1).1 b.2 hw (p, a) hr
+  cases f with
+  | false => exact Or.inr hf
+  | true =>
+    obtain ⟨t, ht, _, hh, _⟩ := consumer_registered tr w n ins hs b hb p a hf
+    exact Or.inl ⟨t, ht, hh⟩
+
+/-- A value that conforms to a type that cannot name files (`IsFile() ==
+KindIsNotFile`: int, float, bool and arrays, typed maps and structs of such;
+typed-map keys of such maps not being paths) contains nothing
+`getMaybeFileNames` would report. -/
+theorem notfile_value_names_nothing (v : Val) (t : Ty) (hc : conforms v t = true) (hf : t.isFile = false) :
+    v.names = [] :=
+  (notFile_names v).1 t hc hf
+
 /-- `cloneFork` (dynamic fork expansion) hands the new fork the same holder sets. -/
 theorem clone_keeps_holders (s : St) (disk : List DiskEnt) :
     (∀ a h, Holds (cloneFork s disk) a h ↔ Holds s a h) ∧ Fresh (cloneFork s disk) :=
@@ -266,6 +295,13 @@ example :
     ((build (opsOf exTree)).lookup "A").map (·.postNodes) = some [("B", ["o"])] ∧
     ((build (opsOf exTree)).lookup "B").map (·.fileArgs) = some [("o", [none])] := by
   refine ⟨by decide, .child (.next .here), .child (.stage (by simp)), by decide, by decide, by decide⟩
+
+/-- values: names are found in strings and keys at any depth; an `int[]` value names nothing -/
+example :
+    (Val.obj (.vcons "/p/k" (.arr (.vcons "" (.str "/p/f") (.vcons "" (.str "rel") .vnil))) .vnil)).names
+      = ["/p/k", "/p/f"] ∧
+    conforms (.arr (.vcons "" .atom (.vcons "" .null .vnil))) (.arr (.prim false)) = true ∧
+    wellTyped (.map (.cons "f" (.ref "P" "x") .nil)) (.struct (.mcons "f" (.prim true) .mnil)) = true := by decide
 
 /-- the typed walk: a struct literal bound at a struct type, a split, a merge -/
 example :
